@@ -50,7 +50,31 @@ def bounds_ok(d, t, v):
         return "size at the epoch end is not the end size"
     if e.start_size == e.end_size and v != e.end_size:
         return "constant-size epoch reports a different size"
+    # the documented interpolation, evaluated here (exactly for linear, with Python's exp/log for exponential)
+    if e.start_size != e.end_size and not math.isinf(e.start_time) and t != e.end_time:
+        dt = (Fraction(e.start_time) - Fraction(t)) / (Fraction(e.start_time) - Fraction(e.end_time))
+        if e.size_function == "linear":
+            want = float(Fraction(e.start_size) + (Fraction(e.end_size) - Fraction(e.start_size)) * dt)
+        elif e.size_function == "exponential":
+            want = e.start_size * math.exp(math.log(e.end_size / e.start_size) * float(dt))
+        else:
+            return None
+        if not math.isclose(v, want, rel_tol=1e-9) and not math.isclose(t, e.end_time):
+            return f"size {v} differs from the documented {e.size_function} interpolation {want}"
     return None
+
+
+def short_epoch_docs():
+    """one deme with a very short non-constant epoch (span 2^-k) between two ordinary ones"""
+    out = []
+    for T in (8.0, 0.25, 1000.0):
+        for k in (5, 20, 28, 31):
+            for f in ("linear", "exponential"):
+                s = 2.0 ** -k
+                out.append({"time_units": "generations", "demes": [{"name": "A", "epochs": [
+                    {"end_time": T + s, "start_size": 100}, {"end_time": T, "end_size": 1000, "size_function": f},
+                    {"end_time": 0, "end_size": 50}]}]})
+    return out
 
 
 def run(ctx):
@@ -58,6 +82,9 @@ def run(ctx):
     done = 0
     while done < n and ctx.time_left() > 5:
         batch = gen_valid_graphs(ctx, min(150, n - done))
+        if done == 0:
+            import demes
+            batch = batch + [(d, demes.Graph.fromdict(d), None) for d in short_epoch_docs()]
         done += len(batch)
         reqs = []
         plist = []
